@@ -186,7 +186,21 @@ func (h *harness) judge(o *outcome) []failure {
 			fail("success-returned-set-differs", "the set returned to the renter is not the set the host broadcast")
 		}
 	}
-	// a fresh pool on a second node accepts the returned set
+	// exactly what was returned - the basis and the set of the final response as the
+	// host sent it, and of the renter function's result - is accepted by the pool of
+	// a second node on the same tip
+	if o.M.gotR3 != nil {
+		fv := viewFinal(o.M.gotR3)
+		if _, err := w.cmV.AddV2PoolTransactions(*fv.Basis, deepCopySet(*fv.Set)); err != nil {
+			fail("success-returned-set-rejected-by-fresh-pool", "the host answered with basis %v and a set of %d transaction(s) (host chain tip %v, host wallet tip %v); a second node on that tip rejects exactly that: %v", *fv.Basis, len(*fv.Set), o.HostCS.Index, o.HostWalletTip, err)
+		}
+	}
+	if o.RenterErr == nil {
+		if _, err := w.cmV.AddV2PoolTransactions(o.ResSet.Basis, deepCopySet(o.ResSet.Transactions)); err != nil {
+			fail("success-returned-set-rejected-by-fresh-pool", "the renter function returned basis %v and a set of %d transaction(s) (host chain tip %v, host wallet tip %v); a second node on that tip rejects exactly that: %v", o.ResSet.Basis, len(o.ResSet.Transactions), o.HostCS.Index, o.HostWalletTip, err)
+		}
+	}
+	// ... and so is the set the host broadcast
 	if _, err := w.cmV.AddV2PoolTransactions(bc.Basis, deepCopySet(bc.Transactions)); err != nil {
 		fail("success-set-rejected-by-fresh-pool", "a second node on the same tip rejects the broadcast set: %v", err)
 	}
